@@ -325,4 +325,15 @@ PinvScalingLaw(A, b, c) ==
     LET cA == MScale(c, A)
     IN /\ MEq(PinvSolve(cA, b), PinvScaled(A, b, c))
        /\ IsMinNormLsq(cA, b, PinvScaled(A, b, c))
+
+\* REVERSE-ORDER "LAW" (F1 F2 .. Fn)^+ = Fn^+ .. F2^+ F1^+ : NOT a law.  It holds when all factors are square and
+\* invertible, or when F1 has full column rank and F2 full row rank (n = 2), and fails in general for rectangular
+\* factors in other positions (tall @ tall, wide @ wide, wide @ tall, square @ tall, wide @ square).  The pseudo-
+\* inverse of a product is therefore ALWAYS specified through the product's own matrix (PinvSolve(MProdSeq(Fs), b));
+\* MC_Pinv exports for every product of the catalog whether the reverse-order candidate coincides with it, and
+\* checks the catalog's claim (witnesses of failure in each of the five patterns).
+RECURSIVE ReverseOrderSolve(_, _)
+ReverseOrderSolve(Fs, b) ==             \* Fn^+ ( .. (F2^+ (F1^+ b)))  for full-rank factors
+    IF Fs = <<>> THEN b ELSE ReverseOrderSolve(Tail(Fs), PinvSolve(Head(Fs), b))
+ReverseOrderLawHolds(Fs, b) == MEq(ReverseOrderSolve(Fs, b), PinvSolve(MProdSeq(Fs), b))
 =============================================================================
